@@ -167,6 +167,20 @@ func RandomHistory(r *Rng, base string) (p *ref.Problem, ops []Op) {
 			op.As = "card"
 			op.C = ref.Lin{Lits: lits, Rel: ref.GE, Rhs: r.Range(1, len(lits))}
 			op.Why = "card"
+			if r.Chance(1, 4) { // the same literal listed twice: it counts twice
+				lits = append(lits, lits[r.Intn(len(lits))])
+				p := r.Perm(len(lits))
+				l2 := make([]int, len(lits))
+				for a, b := range p {
+					l2[a] = lits[b]
+				}
+				op.C = ref.Lin{Lits: l2, Rel: ref.GE, Rhs: r.Range(1, len(l2))}
+				op.Why = "card-repeated-literal"
+			} else if r.Chance(1, 6) { // a literal and its negation: exactly one of them counts
+				lits = append(lits, -lits[r.Intn(len(lits))])
+				op.C = ref.Lin{Lits: lits, Rel: ref.GE, Rhs: r.Range(1, len(lits))}
+				op.Why = "card-complementary"
+			}
 		case 9, 10: // PB constraint
 			op.As = "pb"
 			op.C = RandomPB(r, n, PBOpts{MaxW: r.Range(1, 4), NegCoefs: true})
@@ -174,6 +188,13 @@ func RandomHistory(r *Rng, base string) (p *ref.Problem, ops []Op) {
 				op.C = RandomCard(r, n, false)
 			}
 			op.Why = "pb"
+			if len(op.C.Lits) >= 1 && len(op.C.Coefs) == len(op.C.Lits) && op.C.Rel == ref.GE && r.Chance(1, 4) {
+				// the same literal in two terms: the coefficients add up
+				i := r.Intn(len(op.C.Lits))
+				op.C.Lits = append(op.C.Lits, op.C.Lits[i])
+				op.C.Coefs = append(op.C.Coefs, r.Range(1, 3))
+				op.Why = "pb-repeated-literal"
+			}
 		default:
 			op.C = ref.Cl(r.DistinctLits(n, r.Range(1, min(3, n)))...)
 			op.Why = "clause"
